@@ -41,15 +41,25 @@ size_t libwifi_get_beacon_length(struct libwifi_beacon *beacon) {
  */
 int libwifi_set_beacon_ssid(struct libwifi_beacon *beacon, const char *ssid) {
     int ret = 0;
+    int present = 0;
 
+    // The new tag is added before the old one is removed, so that a failure leaves the old one in place
     if (beacon->tags.length != 0) {
-        ret = libwifi_remove_tag(&beacon->tags, TAG_SSID);
-        if (ret != 0) {
-            return ret;
+        present = libwifi_check_tag(&beacon->tags, TAG_SSID);
+        if (present < 0) {
+            return present;
         }
     }
 
     ret = libwifi_quick_add_tag(&beacon->tags, TAG_SSID, (void *) ssid, strlen(ssid));
+    if (ret != 0) {
+        return ret;
+    }
+
+    // The first tag with this number is the old one
+    if (present > 0) {
+        ret = libwifi_remove_tag(&beacon->tags, TAG_SSID);
+    }
 
     return ret;
 }
@@ -59,17 +69,26 @@ int libwifi_set_beacon_ssid(struct libwifi_beacon *beacon, const char *ssid) {
  */
 int libwifi_set_beacon_channel(struct libwifi_beacon *beacon, uint8_t channel) {
     int ret = 0;
+    int present = 0;
 
+    // The new tag is added before the old one is removed, so that a failure leaves the old one in place
     if (beacon->tags.length != 0) {
-        ret = libwifi_remove_tag(&beacon->tags, TAG_DS_PARAMETER);
-        if (ret != 0) {
-            return ret;
+        present = libwifi_check_tag(&beacon->tags, TAG_DS_PARAMETER);
+        if (present < 0) {
+            return present;
         }
     }
 
     const unsigned char *chan = (const unsigned char *) &channel;
-
     ret = libwifi_quick_add_tag(&beacon->tags, TAG_DS_PARAMETER, chan, 1);
+    if (ret != 0) {
+        return ret;
+    }
+
+    // The first tag with this number is the old one
+    if (present > 0) {
+        ret = libwifi_remove_tag(&beacon->tags, TAG_DS_PARAMETER);
+    }
 
     return ret;
 }
